@@ -63,7 +63,7 @@ def equiv_contract(path, cname, names, fmts, n_required=None, tier="quick"):
         for k in range(n_required, len(names)):
             a_k = ", ".join("v_" + n for n in names[:k])
             contract(f"{LP}::_compile_init", f"defaults[{cname},{k} args]", vars=vars_,
-                     call=f"both(D, ({a_k},))", raises=[],
+                     call=f"both(D, ({a_k},))" if a_k else "both(D, ())", raises=[],
                      ensures=[f"result[0].{n} == result[1].{n}" for n in names]
                      + ["result[0].to_pack_list() == result[1].to_pack_list()"],
                      tier=tier, note="omitted arguments take the same default in both forms")
@@ -108,3 +108,80 @@ for _texpr, _expected in (("bool", "'?'"), ("int", "'q'"), ("float", "'d'"), ("b
                           ("GlobalTimeDistributionPayload", "GlobalTimeDistributionPayload")):
     contract(f"{PD}::type_map", f"type_map[{_texpr}]", vars={"T": EXPR(_texpr)}, call="type_map(T)", raises=[],
              ensures=[f"result == {_expected}"], note="documented native-type to format mapping")
+
+
+# ---------------------------------------------------------------------------------------------------------------------
+# thorough tier: randomly generated definitions (seeded by VERIF_SEED) - a sample of "every possible definition"
+def _generate_random_defs(n, seed):
+    """writes contracts/_c20_generated.py (git-ignored) and returns [(class name, names, formats, n_required)]"""
+    import random
+    rnd = random.Random(seed)
+    pool = ["I", "H", "Q", "B", "?", "varlenH", "varlenHutf8", "ipv4", "q", "l"]
+    defaults = {"I": "7", "H": "9", "Q": "2 ** 40", "B": "0", "?": "False", "varlenH": "b'\\x00ab'", "varlenHutf8": "'it''s'", "ipv4": "('1.2.3.4', 5)",
+                "q": "-3", "l": "0"}
+    hooks_pack = {"I": "value + 1", "H": "value ^ 1", "Q": "value * 2", "B": "value", "q": "-value", "l": "value - 1", "?": "not value",
+                  "varlenH": "value + b'!'", "varlenHutf8": "value + '!'"}
+    hooks_unpack = {"I": "value - 1", "H": "value ^ 1", "Q": "value // 2", "B": "value", "q": "-value", "l": "value + 1", "?": "not value",
+                    "varlenH": "value[:-1]", "varlenHutf8": "value[:-1]"}
+    out, src = [], ['"""GENERATED by contracts/C20.py in the thorough tier (seed %d): random VariablePayload definitions."""' % seed,
+                    "try:\n    from ipv8.messaging.lazy_payload import VariablePayload\nexcept ImportError:\n    pass\n"]
+    for i in range(n):
+        k = rnd.randint(1, 5)
+        fmts = [rnd.choice(pool) for _ in range(k)]
+        with_bits = rnd.random() < 0.3
+        pos_bits = rnd.randint(0, k) if with_bits else None
+        if rnd.random() < 0.3:
+            fmts.append("raw")
+        names, flist, j = [], [], 0
+        for idx, f in enumerate(fmts):
+            if with_bits and idx == pos_bits:
+                flist.append("bits")
+                names += [f"g{i}b{b}" for b in range(8)]
+            flist.append(f)
+            names.append(f"f{j}")
+            j += 1
+        if with_bits and pos_bits == len(fmts):
+            flist.append("bits")
+            names += [f"g{i}b{b}" for b in range(8)]
+        cname = f"Gen{i}"
+        # defaults for a trailing run of plain fields (only when there is no bits group after them)
+        n_def = 0
+        if not with_bits and rnd.random() < 0.6:
+            n_def = rnd.randint(1, len(names))
+            n_def = min(n_def, len([f for f in flist if f != "raw"]) if flist[-1] != "raw" else 0)
+        n_required = len(names) - n_def
+        lines = [f"class {cname}(VariablePayload):", f"    format_list = {flist!r}", f"    names = {names!r}", ""]
+        if n_def:
+            params = ", ".join(names[:n_required] + [f"{nm}={defaults[flist[len(names) - n_def + d]]}" for d, nm in enumerate(names[n_required:])])
+            lines += [f"    def __init__(self, {params}, **kwargs):", f"        super().__init__({', '.join(names)}, **kwargs)", ""]
+        plain = [(nm, f) for nm, f in zip([x for x in names if not x.startswith('g')], [f for f in flist if f != "bits"]) if f in hooks_pack]
+        for nm, f in plain:
+            r = rnd.random()
+            if r < 0.25:
+                lines += [f"    def fix_pack_{nm}(self, value):", f"        return {hooks_pack[f]}", ""]
+            if r < 0.15 or r > 0.9:
+                lines += ["    @classmethod", f"    def fix_unpack_{nm}(cls, value):", f"        return {hooks_unpack[f]}", ""]
+        src.append("\n".join(lines))
+        out.append((cname, names, flist, n_required if n_def else None))
+    path = os.path.join(os.path.dirname(os.path.abspath(__file__)), "_c20_generated.py")
+    tmp = f"{path}.{os.getpid()}.tmp"
+    with open(tmp, "w") as fh:
+        fh.write("\n\n".join(src) + "\n")
+    os.replace(tmp, path)
+    return out
+
+
+if thorough():
+    for _cname, _names, _fmts, _nreq in _generate_random_defs(16, int(os.environ.get("VERIF_SEED", "0") or 0)):
+        equiv_contract("contracts/_c20_generated.py", _cname, _names, _fmts, _nreq, tier="thorough")
+
+
+# ---------------------------------------------------------------------------------------------------------------------
+# BOUNDED native stand-in (sampling on the real code, not a proof): the dataclass form is produced by run-time reflection
+# (dataclasses.fields, typing.get_type_hints, sys.modules) that the verifier does not model.
+native("dataclass-vs-plain", "natives/c20_dataclass.py",
+       bound="7 dataclass definitions (native types, serializer formats, defaults, lists, nesting, message ids, a 3-level inheritance "
+             "chain) x 4 instantiation orders x 3 repetitions (thorough: 12) x 2 random value sets each",
+       functions=["ipv8/messaging/payload_dataclass.py::convert_to_payload", "ipv8/messaging/payload_dataclass.py::DataClassPayload.__new__",
+                  "ipv8/messaging/payload_dataclass.py::DataClassPayloadWID.__new__", "ipv8/messaging/payload_dataclass.py::type_map"],
+       note="names, format_list, msg_id, packed bytes, consumed length and decoded fields equal those of the hand-written plain definition")
